@@ -15,7 +15,7 @@ Fixpoint ptimes (d : dest) (l : list (N * gev)) : list N :=
   | [] => []
   | (t, GQueue _ d') :: r => if dest_eqb d' d then ptimes d r ++ [t] else ptimes d r
   | (_, GFlush d' _) :: r => if dest_eqb d' d then [] else ptimes d r
-  | (_, GSend _ _ _ _) :: r => ptimes d r
+  | _ :: r => ptimes d r
   end.
 (* every hand-over took exactly the pending entries of its destination, each queued at most tc earlier *)
 Fixpoint intime (tc : N) (l : list (N * gev)) : bool :=
@@ -28,17 +28,21 @@ Fixpoint intime (tc : N) (l : list (N * gev)) : bool :=
 
 Lemma ptimes_qlog d l : ptimes d (qlog l) = ptimes d l.
 Proof.
-  induction l as [|[t g] l IH]; [reflexivity|]. destruct g as [e d'|d' es|es d' f i].
+  induction l as [|[t g] l IH]; [reflexivity|]. destruct g as [e d'|d' es|es d' f i|st a k ttl|st a k].
   - change (ptimes d ((t, GQueue e d') :: qlog l) = ptimes d ((t, GQueue e d') :: l)). cbn [ptimes]. rewrite IH. reflexivity.
   - change (ptimes d ((t, GFlush d' es) :: qlog l) = ptimes d ((t, GFlush d' es) :: l)). cbn [ptimes]. rewrite IH. reflexivity.
   - change (ptimes d (qlog l) = ptimes d ((t, GSend es d' f i) :: l)). cbn [ptimes]. exact IH.
+  - change (ptimes d (qlog l) = ptimes d ((t, GRefresh st a k ttl) :: l)). cbn [ptimes]. exact IH.
+  - change (ptimes d (qlog l) = ptimes d ((t, GExpire st a k) :: l)). cbn [ptimes]. exact IH.
 Qed.
 Lemma intime_qlog tc l : intime tc (qlog l) = intime tc l.
 Proof.
-  induction l as [|[t g] l IH]; [reflexivity|]. destruct g as [e d'|d' es|es d' f i].
+  induction l as [|[t g] l IH]; [reflexivity|]. destruct g as [e d'|d' es|es d' f i|st a k ttl|st a k].
   - change (intime tc ((t, GQueue e d') :: qlog l) = intime tc ((t, GQueue e d') :: l)). cbn [intime]. exact IH.
   - change (intime tc ((t, GFlush d' es) :: qlog l) = intime tc ((t, GFlush d' es) :: l)). cbn [intime]. rewrite IH, ptimes_qlog. reflexivity.
   - change (intime tc (qlog l) = intime tc ((t, GSend es d' f i) :: l)). cbn [intime]. exact IH.
+  - change (intime tc (qlog l) = intime tc ((t, GRefresh st a k ttl) :: l)). cbn [intime]. exact IH.
+  - change (intime tc (qlog l) = intime tc ((t, GExpire st a k) :: l)). cbn [intime]. exact IH.
 Qed.
 
 Definition deadline_ok (w : world) (d : dest) (c : N) : Prop :=
